@@ -341,7 +341,6 @@ func tieObs(before, after *Dump, errClass string) []string {
 	return out
 }
 
-var _ = sqlite.DriverName
 
 // typeChanged: some column has another declared type afterwards.
 func typeChanged(before, after *Dump) bool {
